@@ -545,6 +545,12 @@ class Canon:
             out.append(el)
         if pending is not None:
             out.append('other:index_mut(%s)' % pending)
+        if len(out) > 1 and out[0].startswith('INIT:') and not any(x.startswith(('other:', 'LOOP(other:')) for x in out[1:]):
+            # a vector that starts as the bytes of another value and is only appended to is that value followed by the appends
+            init_ = out[0][5:]
+            import re as _re
+            if not _re.match(r'^(phi\(|from_elem\(|repeat\{)', init_):
+                out[0] = init_
         return out
 
     def byte_len(self, el):
